@@ -46,8 +46,10 @@ open MsVerif ExtData
 /-! ## T1: witness count / size / scriptSig size -/
 
 /-- T1 (satisfactions).  `good`: see its doc comment; `AssetsOk` says what the caller hands in
-has the sizes the library assumes (Schnorr signatures 64/65 bytes, keys revealed for raw
-`pk_h` hashes compressed in Bare/Legacy). -/
+has the sizes the library assumes (Schnorr signatures 64/65 bytes).  Nothing is assumed about
+the key revealed for a raw `pk_h` hash: its figure is the largest key of the context
+(`pkLen_le_rawKeySig`; before the library fix "size figures of a raw pkh assume the largest key
+the context allows" the figure was 34 bytes and a 65-byte key overshot it). -/
 theorem witness_bounds_partial (ke : KeyEnv) (ctx : Ctx) (mall rootHasSig : Bool) (a : Assets)
     (ha : AssetsOk ke ctx a) (ms : Ms) (hg : good ke ctx ms = true) (w : List Ph)
     (h : (satDissat ⟨ke, ctx, mall, rootHasSig, a⟩ ms).sat.stack = .stack w) :
@@ -237,8 +239,24 @@ def assets0 (keys : List Key) : Assets where
 theorem assets0_ok (ctx : Ctx) (keys : List Key) : AssetsOk ke0 ctx (assets0 keys) where
   schnorr k sz h := by simp only [assets0] at h; split at h <;> simp_all
   rawSchnorr _ _ _ h := by simp [assets0] at h
-  rawPk _ _ h := by simp [assets0] at h
-  rawEcdsa _ _ h := by simp [assets0] at h
+
+/-- the caller knows the (uncompressed, id 100) key behind raw hash 0 and holds its signature -/
+def assetsR : Assets :=
+  { assets0 [] with rawPkhPk := fun h => if h = 0 then some 100 else none
+                    rawPkhEcdsa := fun h => if h = 0 then some 100 else none }
+
+theorem assetsR_ok (ctx : Ctx) : AssetsOk ke0 ctx assetsR where
+  schnorr k sz h := by simp [assetsR, assets0] at h
+  rawSchnorr _ _ _ h := by simp [assetsR, assets0] at h
+
+/-- the instance that was the defect: `c:pk_h(<raw hash>)` in Legacy satisfied with a 65-byte
+key.  The satisfier's witness is signature (73) + key push (66) = 139 bytes, and the figure is
+139 (it was 107). -/
+theorem raw_pkh_uncompressed_tight :
+    ∃ w, (satDissat ⟨ke0, .legacy, false, false, assetsR⟩ (.check (.rawPkH 0))).sat.stack = .stack w
+      ∧ (w.map Ph.size).sum = 139
+      ∧ ((extOf ke0 .legacy (.check (.rawPkH 0))).satData.map (·.wSize)) = some 139 := by
+  refine ⟨[.ecdsaSigPkh 0, .pubkeyHash 0 66], by decide, by decide, by decide⟩
 
 /-- assets with every preimage known -/
 def assetsP (keys : List Key) : Assets := { assets0 keys with preimage := fun _ _ => true }
@@ -246,8 +264,6 @@ def assetsP (keys : List Key) : Assets := { assets0 keys with preimage := fun _ 
 theorem assetsP_ok (ctx : Ctx) (keys : List Key) : AssetsOk ke0 ctx (assetsP keys) where
   schnorr k sz h := by simp only [assetsP, assets0] at h; split at h <;> simp_all
   rawSchnorr _ _ _ h := by simp [assetsP, assets0] at h
-  rawPk _ _ h := by simp [assetsP, assets0] at h
-  rawEcdsa _ _ h := by simp [assetsP, assets0] at h
 
 /-- `andor(thresh(2,pk(0),s:pk(1),s:pk(2)),
           or_i(multi(2,3,4,5),and_v(v:sha256(0),and_v(v:pkh(6),dv:older(144)))),pk(7))`:
